@@ -212,11 +212,20 @@ def invoke(kd, w):
                                  offset=a['offset'], start_time=a['start'], samples=a['samples'], transform=None)
         if form == 'ramped':   # the form ramped_tone uses
             return stim.envelope(window=a['window'], fs=FS, rise_time=a['rise'], duration=a['dur'])
+        # two spellings that give the SAME value to DIFFERENT optional parameters
+        if form == 'pos_off':
+            return stim.envelope(a['window'], FS, a['dur'], a['rise'], a['x'])
+        if form == 'kw_start':
+            return stim.envelope(a['window'], FS, a['dur'], a['rise'], start_time=a['x'])
     if fn == 'cos2envelope':
         if form == 'pos':
             return stim.cos2envelope(FS, a['dur'], a['rise'], a['offset'], a['start'], a['samples'])
         if form == 'short':
             return stim.cos2envelope(FS, a['dur'], a['rise'])
+        if form == 'pos_off':
+            return stim.cos2envelope(FS, a['dur'], a['rise'], a['x'])
+        if form == 'kw_samples':
+            return stim.cos2envelope(FS, a['dur'], a['rise'], samples=a['x'])
     if fn == '_sam_envelope':  # the form SAMEnvelopeFactory.env / sam_envelope use
         return stim._sam_envelope(a['offset'], a['samples'], FS, a['depth'], a['fm'], a['delay'],
                                   stim.sam_eq_phase(a['delay'], a['depth'], 1), stim.sam_eq_power(a['depth']))
@@ -895,6 +904,17 @@ def gen_cache_case(rng):
         a = {'dur': 0.02, 'rise': 0.005, 'offset': rng.choice([0, 3]), 'start': 0, 'samples': rng.choice([7, 20])}
         kds += [{'fn': 'cos2envelope', 'form': 'pos', 'a': a},
                 {'fn': 'envelope', 'form': 'kw', 'a': dict(a, window='cosine-squared')}]
+    if rng.random() < 0.3:
+        # the same value handed to different optional parameters, positionally and by keyword
+        x = rng.choice([1, 2, 16])
+        if rng.random() < 0.5:
+            a = {'window': rng.choice(['cosine-squared', 'hann']), 'dur': 0.02, 'rise': 0.005, 'x': x}
+            kds += [{'fn': 'envelope', 'form': 'pos_off', 'a': a}, {'fn': 'envelope', 'form': 'kw_start', 'a': dict(a)}]
+        else:
+            a = {'dur': 0.02, 'rise': 0.005, 'x': x}
+            kds += [{'fn': 'cos2envelope', 'form': 'pos_off', 'a': a}, {'fn': 'cos2envelope', 'form': 'kw_samples', 'a': dict(a)}]
+        if rng.random() < 0.5:
+            kds[-2:] = kds[-2:][::-1]
     b.case['keys'], idx = close_keys(kds)
     nk = len(b.case['keys'])
     for _ in range(rng.randint(3, 10)):
@@ -1024,6 +1044,13 @@ def gen_queue_case(rng):
     qonly = len(c['arrays']) - 1
     kind = rng.choice(QUEUE_KINDS)
     q = b.qnew(kind, rng.choice([0, 1, 5]))
+    if rng.random() < 0.35:
+        # the caller post-processes a buffer in place (buf *= gain): a buffer lying wholly inside one trial of an
+        # array token must not be a window onto the queue's stored waveform
+        b.op('appendw', q, qonly, rng.choice([2, 3]), rng.choice([0, 2]))
+        b.op('pop', q, rng.choice([3, 5]))
+        b.op('scribble')
+        b.op('pop', q, rng.choice([3, 9, 30]))
     for _ in range(rng.randint(4, 12)):
         r = rng.random()
         g, qs = b.gens(), b.queues()
